@@ -11,7 +11,7 @@ def run(res, tier, harnesses, quick_deadline=100, thorough_deadline=900, kind="p
         rp = v.get("replay") or {}
         if "case" not in rp or "harness" not in rp:
             return True
-        doc = vlib.replay_harness(rp["harness"], rp["case"], rp.get("kind", kind), tier)
+        doc = vlib.replay_harness(rp["harness"], rp["case"], rp.get("kind", kind), tier, rp.get("extra"))
         if doc is None:
             return True   # crashed while replaying: certainly not clean
         return any(x["key"] == v["key"] for x in doc["violations"])
@@ -20,7 +20,7 @@ def run(res, tier, harnesses, quick_deadline=100, thorough_deadline=900, kind="p
 
 def replay(doc):
     rp = doc.get("replay") or {}
-    d = vlib.replay_harness(rp["harness"], rp["case"], rp.get("kind", "plain"), doc.get("tier", "quick"))
+    d = vlib.replay_harness(rp["harness"], rp["case"], rp.get("kind", "plain"), doc.get("tier", "quick"), rp.get("extra"))
     if d is None:
         print("replay crashed")
         return 1
